@@ -449,8 +449,25 @@ func twDescribe(kind string) fw.Description {
 type c01 struct{}
 
 func (c01) ID() string                 { return "C01" }
-func (c01) Plan(tier string) []fw.Unit { return twPlan("C01", "tumbling", tier) }
+func (c01) Plan(tier string) []fw.Unit {
+	us := twPlan("C01", "tumbling", tier)
+	us = append(us, fw.Unit{Check: "C01", Kind: "proc-enum", Tier: tier, Spec: fw.Spec(enumSpec{})})
+	bound := 1
+	if tier == "thorough" {
+		bound = 2
+	}
+	for i, sc := range c01ProcScenarios() {
+		us = append(us, fw.Unit{Check: "C01", Kind: "proc-sched", Tier: tier, Spec: fw.Spec(schedSpec{Scn: i, Name: sc.Name, Items: []explore.Item{{}}, Bound: bound, Budget: 20000})})
+	}
+	return us
+}
 func (c01) Run(u fw.Unit) fw.Result {
+	if u.Kind == "proc-enum" {
+		return c01ProcEnum(u.Tier)
+	}
+	if u.Kind == "proc-sched" {
+		return runSched("C01", u, c01ProcScenarios())
+	}
 	if u.Kind == "sched" {
 		return runSched("C01", u, twScenarios("C01", "tumbling", u.Tier))
 	}
